@@ -130,9 +130,28 @@ func (s *sqSubj[T]) ModelApply(op Op) {
 	case "Peek":
 	case "Clear":
 		s.m = nil
+	case "Shrink": // remove (in removal order) until op.A[0] elements are left
+		if len(s.m) > op.A[0] {
+			s.m = slices.Clone(s.m[len(s.m)-op.A[0]:])
+		}
 	case "Fill":
-		for _, i := range fillIdx(op.A) {
-			s.modelPut(s.d.At(i))
+		idx := fillIdx(op.A)
+		vs := make([]T, len(idx))
+		for j, i := range idx {
+			vs[j] = s.d.At(i)
+		}
+		switch {
+		case s.lifo:
+			slices.Reverse(vs)
+			s.m = append(vs, s.m...)
+		case s.ring():
+			m := append(slices.Clone(s.m), vs...)
+			if len(m) > s.cfg.Cap {
+				m = m[len(m)-s.cfg.Cap:]
+			}
+			s.m = m
+		default:
+			s.m = append(slices.Clone(s.m), vs...)
 		}
 	default:
 		panic("sq model: unknown op " + op.N)
@@ -158,11 +177,15 @@ func (s *sqSubj[T]) Step(op Op, o *Oracle) {
 		if wok {
 			wv = s.m[0]
 		}
-		if o.On("C05") && (ok != wok || v != wv) {
+		if o.On("C05") && (ok != wok || !sameElem(s.d, v, wv)) {
 			o.Fail("C05", "removal-order", "%s returned (%s,%v), want (%s,%v); model (removal order) %s", op.N, s.d.Str(v), ok, s.d.Str(wv), wok, joinS(s.m, s.d.Str))
 		}
 	case "Clear":
 		s.c.Clear()
+	case "Shrink":
+		for n := len(s.m); n > op.A[0]; n-- {
+			s.take()
+		}
 	case "Fill":
 		for _, i := range fillIdx(op.A) {
 			s.put(s.d.At(i))
@@ -187,14 +210,14 @@ func (s *sqSubj[T]) check(o *Oracle) {
 		if !o.On("C05") {
 			tag = "C16"
 		}
-		if !slices.Equal(vals, s.m) {
+		if !sameSeq(s.d, vals, s.m) {
 			o.Fail(tag, "values", "after %s: Values()=%s, want (removal order) %s", o.cur, joinS(vals, s.d.Str), joinS(s.m, s.d.Str))
 		}
 		if got := s.c.Size(); got != len(s.m) {
 			o.Fail(tag, "size", "after %s: Size()=%d, want %d", o.cur, got, len(s.m))
 		}
 		v, ok := s.c.Peek()
-		if ok != (len(s.m) > 0) || (ok && v != s.m[0]) {
+		if ok != (len(s.m) > 0) || (ok && !sameElem(s.d, v, s.m[0])) {
 			o.Fail(tag, "peek", "after %s: Peek()=(%s,%v), model %s", o.cur, s.d.Str(v), ok, joinS(s.m, s.d.Str))
 		}
 		if rb, isRing := s.c.(*circularbuffer.Queue[T]); isRing {
